@@ -20,6 +20,29 @@ import c02
 PROP = "C17"
 
 
+def targeted_cases(rng):
+    """every nesting of a sorting / grouping loop inside another loop, over sets that belong to the
+    CALLER's value: sort and group must work on private copies whatever the enclosing loop did"""
+    import tmplast as ta
+    out = []
+    outers = [("items", "g", 0), ("items", "name", 1), ("items", "val", 2), ("items", "", 0), ("obj", "", 2), ("list", "", 0), (None, "", 0)]   # (arrays of objects are never sorted: their order is not documented)
+    inners = [("list", "", 1), ("list", "", 2), ("obj", "", 1), ("obj", "", 2), ("items", "g", 1), ("items", "name", 0), (None, "", 1)]
+    for (oset, ogroup, osort) in outers:
+        for (iset, igroup, isort) in inners:
+            for _ in range(2):
+                root, sortable = ta.gen_root(rng)
+                root["list"] = rng.sample([5, 1, 4, 2, 3, 9, 0], rng.randrange(2, 6))
+                root["obj"] = {k: 1 for k in rng.sample(["zz", "b", "a", "k2", "Key", "m"], rng.randrange(2, 5))}
+                if not root["items"]:
+                    root["items"] = [{"name": "y", "val": 2, "g": "q"}, {"g": "p", "name": "x", "val": 1}, {"val": 2, "g": "q", "name": "x"}]
+                inner = ("l", ta.P(iset) if iset else None, "n", igroup, isort, [("v", ta.P("n")), ("t", ",")])
+                body = [("t", "["), ("v", ta.P("o")), ("t", ":"), inner, ("t", "]")]
+                ast = [("l", ta.P(oset) if oset else None, "o", ogroup, osort, body), ("t", "|"),
+                       ("l", ta.P("list"), "p", "", 0, [("v", ta.P("p")), ("t", ";")])]
+                out.append(c02.Case(rng.choice([0, 0, 1, 2, 3]), ast, root, 1))
+    return out
+
+
 def check(tier):
     rep = vlib.Report(PROP, tier, "proof")
     rng = random.Random(rep.seed)
@@ -32,7 +55,7 @@ def check(tier):
         return rep.finish()
     boost = 1 if st["ok"] else 4
     n = (1500 if tier == "quick" else 20000) * boost
-    cases = c02.gen_cases(rng, n, plain_share=0.02, mode=1)
+    cases = targeted_cases(rng) + c02.gen_cases(rng, n, plain_share=0.02, mode=1)
     results, crashes = c02.run_cases(exe, cases)
     # results: impl output carries ",!<bits>" when a cached / repeated render or the value/text differed
     impure = []
